@@ -171,6 +171,8 @@ def run_seed(args: dict, sandbox: str) -> dict:
         "out_mode": out_mode,
         "hostile": hostile,
         "config": {"generate_all_tags": r.random() < 0.3},
+        "name_overrides": r.choice([None, None, None, None, {"package_name_override": "custom_pkg"}, {"project_name_override": "custom-proj"},
+                                    {"project_name_override": "custom-proj", "package_name_override": "custom_pkg"}]),
         # an idempotent custom post-hook (a real subprocess run in the project directory) in a third of the histories
         "post_hooks": r.choice([[], [], ["touch hook_ran.txt"]]),
         # a custom template directory (beside the output location, inside the watched parent) in a fifth of the histories
@@ -193,7 +195,7 @@ class World:
         self.P = os.path.join(sandbox, "P")
         self.cwd = os.path.join(self.P, "work")
         os.makedirs(self.cwd)
-        self.cfg = genrun.write_config(sandbox, {"post_hooks": list(spec.get("post_hooks") or []), **(spec.get("config") or {})})
+        self.cfg = genrun.write_config(sandbox, {"post_hooks": list(spec.get("post_hooks") or []), **(spec.get("config") or {}), **(spec.get("name_overrides") or {})})
         self.docpaths = {}
         for k, d in spec["docs"].items():
             p = os.path.join(sandbox, f"{k}.json")
@@ -686,6 +688,10 @@ def shrink_candidates(spec: dict) -> list[dict]:
     if spec.get("out_mode") != "explicit":
         s = copy.deepcopy(spec)
         s["out_mode"] = "explicit"
+        out.append(s)
+    if spec.get("name_overrides"):
+        s = copy.deepcopy(spec)
+        s["name_overrides"] = None
         out.append(s)
     if any((spec.get("config") or {}).values()):
         s = copy.deepcopy(spec)
